@@ -994,3 +994,18 @@ def _rd_procedure(second, third):
 
 BENIGN.append({"name": "reader-numbers-by-procedure", "edits": _rd_procedure("beta", "gamma")})
 MUTANTS.append({"name": "reader-procedure-beta-gamma-swapped", "edits": _rd_procedure("gamma", "beta"), "rules": ["R1"]})
+
+
+def _rd_zip_fields(names):
+    """the numeric columns paired with their attribute names by zipping a literal with a slice of the record"""
+    return {"file": RFILE, "old": _RD_FLOATS_OLD, "new": '        fields = react_string.split(",")\n        for attrname, text in zip(' + names + ', fields[-7:-2]):\n            setattr(self, attrname, float(text))\n'}
+
+
+def _rd_record_dict(key):
+    """the tail of the record kept as a dict keyed by column name"""
+    return {"file": RFILE, "old": '        self.beta = float(b)\n', "new": '        cols = dict(zip(("alpha", "beta", "gamma", "tmin", "tmax", "type", "source"), react_string.split(",")[-7:]))\n        self.beta = float(cols["' + key + '"])\n'}
+
+
+BENIGN += [dict(_rd_zip_fields('("alpha", "beta", "gamma", "temp_min", "temp_max")'), name="reader-floats-zipped-with-record-slice"), dict(_rd_record_dict("beta"), name="reader-column-from-keyed-record")]
+MUTANTS += [dict(_rd_zip_fields('("alpha", "beta", "gamma", "temp_max", "temp_min")'), name="reader-zipped-slice-bounds-swapped", rules=["R1"]),
+            dict(_rd_record_dict("gamma"), name="reader-keyed-record-wrong-column", rules=["R1"])]
